@@ -9,7 +9,7 @@
 //	tree <id> <height> <post> <leaf hashes, input order> => <root> <sorted leaf hashes> | PANIC
 //	proof <id> <index> => <idx> <target> <siblings> <leaf hash> | PANIC
 //	val <id> <kind> <post> <idx> <target> <siblings> <leaf hash> <root> <levels> => <valid> <replay> | PANIC
-//	lv <n> => <int(math.Ceil(math.Log2(float64(n))))>
+//	lv <n> => <int(math.Ceil(math.Log2(float64(n))))>      (lvx: same, for n > 2^48+1)
 //	lvrun <from> <to> => <v>                    the Go expression is v for every n in [from,to]
 //
 // A hash range is rendered hash:lower:upper.  The Lean driver does not compute blake2b: the model
@@ -685,14 +685,18 @@ func runLevels(r *gen.R, upto int64, singles int) {
 		for _, d := range []int64{-1, 0, 1} {
 			n := int64(1)<<k + d
 			if n >= 1 {
-				tr.Line("lv", true, "lv %d => %d", n, goLevels(n))
+				op := "lv"
+				if n > 1<<48+1 {
+					op = "lvx" // float64 log2 loses the "+1" just above 2^49 and beyond (see design-notes/C29.md)
+				}
+				tr.Line(op, true, "%s %d => %d", op, n, goLevels(n))
 			}
 		}
 	}
 	for i := 0; i < singles; i++ {
 		n := int64(r.U64()>>uint(12+r.Intn(50))) + 1
-		if n > 1<<52 {
-			n = 1 << 52
+		if n > 1<<48 {
+			n = 1 << 48
 		}
 		tr.Line("lv", true, "lv %d => %d", n, goLevels(n))
 	}
